@@ -155,12 +155,51 @@ theorem pow2_pos (w : Nat) : 0 < pow2 w := by
   unfold pow2
   exact Int.natCast_pos.mpr (Nat.pow_pos (by decide))
 
+theorem cvt_eq {bits : Nat} {c : Int} (h1 : - pow2 (bits - 1) ≤ c) (h2 : c < pow2 (bits - 1)) :
+    cvt bits c = c := by
+  unfold cvt
+  rw [if_pos ⟨h1, h2⟩]
+
+theorem pow2_7 : pow2 7 = 128 := by decide
+theorem pow2_8 : pow2 8 = 256 := by decide
+theorem pow2_15 : pow2 15 = 32768 := by decide
+theorem pow2_16 : pow2 16 = 65536 := by decide
+theorem pow2_31 : pow2 31 = 2147483648 := by decide
+theorem pow2_32 : pow2 32 = 4294967296 := by decide
+theorem pow2_63 : pow2 63 = 9223372036854775808 := by decide
+
 theorem wrapU_of_inU {w : Nat} (hw : w = 8 ∨ w = 16 ∨ w = 32) {n : Int} (h : inU w n = true) :
     wrapU w n = n := by
   simp only [inU, Bool.and_eq_true, decide_eq_true_eq] at h
-  rcases hw with rfl | rfl | rfl <;> simp only [wrapU, cvt, pow2] at h ⊢ <;>
-    (simp only [Nat.reduceEqDiff, if_false, if_true, Nat.reduceSub, Nat.reducePow]
-     rw [if_pos (by omega)]
-     omega)
+  rcases hw with rfl | rfl | rfl
+  · rw [pow2_8] at h
+    have : cvt 32 n = n := cvt_eq (by rw [pow2_31]; omega) (by rw [pow2_31]; omega)
+    simp only [wrapU, Nat.reduceEqDiff, if_false, this, pow2_8]
+    omega
+  · rw [pow2_16] at h
+    have : cvt 32 n = n := cvt_eq (by rw [pow2_31]; omega) (by rw [pow2_31]; omega)
+    simp only [wrapU, Nat.reduceEqDiff, if_false, this, pow2_16]
+    omega
+  · rw [pow2_32] at h
+    have : cvt 64 n = n := cvt_eq (by rw [pow2_63]; omega) (by rw [pow2_63]; omega)
+    simp only [wrapU, if_true, this, pow2_32]
+    omega
+
+theorem wrapS_of_inS {w : Nat} (hw : w = 8 ∨ w = 16 ∨ w = 32) {n : Int} (h : inS w n = true) :
+    wrapS w n = n := by
+  simp only [inS, Bool.and_eq_true, decide_eq_true_eq] at h
+  rcases hw with rfl | rfl | rfl
+  · rw [show 8 - 1 = 7 from rfl, pow2_7] at h
+    have : cvt 32 n = n := cvt_eq (by rw [pow2_31]; omega) (by rw [pow2_31]; omega)
+    simp only [wrapS, this, show 8 - 1 = 7 from rfl, pow2_7, pow2_8]
+    omega
+  · rw [show 16 - 1 = 15 from rfl, pow2_15] at h
+    have : cvt 32 n = n := cvt_eq (by rw [pow2_31]; omega) (by rw [pow2_31]; omega)
+    simp only [wrapS, this, show 16 - 1 = 15 from rfl, pow2_15, pow2_16]
+    omega
+  · rw [show 32 - 1 = 31 from rfl, pow2_31] at h
+    have : cvt 32 n = n := cvt_eq (by rw [pow2_31]; omega) (by rw [pow2_31]; omega)
+    simp only [wrapS, this, show 32 - 1 = 31 from rfl, pow2_31, pow2_32]
+    omega
 
 end Hive.SerixJson
